@@ -1,6 +1,7 @@
 package c11
 
 import (
+	"context"
 	"encoding/json"
 	"fmt"
 	"os"
@@ -8,6 +9,7 @@ import (
 	"path/filepath"
 	"strconv"
 	"strings"
+	"time"
 
 	"verif/mc/engine"
 	rj "verif/mc/ref/json"
@@ -117,15 +119,157 @@ func cyclicInput(text []uint16, m mutator) string {
 }
 
 func runReviveCyclic(r *engine.Run) {
+	expected := func(key string) string {
+		text, m, _ := cyclicCase(key)
+		exp := ""
+		forEachMemberOrder(text, func(v rj.Value) bool {
+			exp = cyclicModel(v, m)
+			return true
+		})
+		return exp
+	}
+	runInChildren(r, "revive-cyclic-child", "parse-cyclic-reviver", cyclicCases(),
+		func(key string) string { text, m, _ := cyclicCase(key); return cyclicInput(text, m) }, expected)
+	r.Bound("cases", strconv.Itoa(len(cyclicCases()))+" (texts x {first, firstContainer} cycSibs), each in a child process with stack depth limit "+strconv.Itoa(cyclicStackLimit))
+}
+
+// ---------------------------------------------------------------------------
+// family: stringify-growing — the twin of revive-cyclic for JSON.stringify: a
+// replacer function or a toJSON that returns a fresh, deeper value at every
+// visit. JO/JA then nest without end; with a stack depth limit configured the
+// implementation has to stop with a RangeError and must not take the process
+// down. Child process per case for the same reason as above.
+
+type growCase struct {
+	name string
+	n    func() *node
+	rep  string // replacer behaviour ("" = none)
+	sp   string
+}
+
+func growCases() []growCase {
+	num := func(f float64) *node { return lf(rj.Num(f)) }
+	var out []growCase
+	for _, sp := range []string{"none", "2"} {
+		for _, v := range []struct {
+			name string
+			n    func() *node
+		}{
+			{"undefined", func() *node { return lf(rj.Undef) }}, {"number", func() *node { return num(1) }},
+			{"array", func() *node { return arr(num(1), num(2)) }}, {"object", func() *node { return obj("a", num(1)) }},
+			{"nested", func() *node { return obj("a", arr(obj("b", num(1)))) }},
+		} {
+			out = append(out, growCase{"replacer-grow:" + v.name + "|" + sp, v.n, "grow", sp})
+			out = append(out, growCase{"replacer-toObj:" + v.name + "|" + sp, v.n, "toObj", sp})
+		}
+		out = append(out, growCase{"toJSON-grow@root|" + sp, func() *node { return obj("x", num(1)).tj("grow") }, "", sp})
+		out = append(out, growCase{"toJSON-grow@member|" + sp, func() *node { return obj("a", num(0), "m", obj().tj("grow"), "z", num(9)) }, "", sp})
+		out = append(out, growCase{"toJSON-grow@element|" + sp, func() *node { return arr(num(0), arr().tj("grow")) }, "", sp})
+		out = append(out, growCase{"toJSON-grow@wrapper|" + sp, func() *node { return arr(wrap(rj.Num(1)).tj("grow")) }, "", sp})
+		out = append(out, growCase{"toJSON-grow+identity-replacer|" + sp, func() *node { return obj("m", obj().tj("grow")) }, "identity", sp})
+	}
+	return out
+}
+
+func growCaseByName(name string) (growCase, bool) {
+	for _, c := range growCases() {
+		if c.name == name {
+			return c, true
+		}
+	}
+	return growCase{}, false
+}
+
+func (c growCase) replacer() *argSpec {
+	if c.rep == "" {
+		return &argSpec{name: "none", model: func(h *hostModel) rj.Value { return rj.Undef }}
+	}
+	rep := c.rep
+	return &argSpec{name: rep, js: "__rp_" + rep, model: func(h *hostModel) rj.Value { return rj.ObjV(h.fn("replacer", rep)) }}
+}
+
+func (c growCase) model() string {
+	h := &hostModel{}
+	res := rj.Stringify(c.n().toModel(h), c.replacer().model(h), specByName(spaces, c.sp).model(h))
+	s, _ := renderStringify(res, nil)
+	return s
+}
+
+func (c growCase) input() string {
+	return fmt.Sprintf("[stack depth limit %d] JSON.stringify(%s%s)", cyclicStackLimit, c.n().toJS(), argSrc(c.replacer(), specByName(spaces, c.sp)))
+}
+
+func runStringifyGrowingChild(r *engine.Run) {
+	if r.ReplayKey == "" {
+		return
+	}
+	c, ok := growCaseByName(r.ReplayKey)
+	if !ok {
+		return
+	}
+	d := newDrv()
+	d.vm.SetStackDepthLimit(cyclicStackLimit)
+	n := c.n()
+	_, val, ok := build(r, d, n)
+	if !ok {
+		return
+	}
+	sc := &sCase{val: val, rep: c.replacer(), sp: specByName(spaces, c.sp)}
+	args, err := stringifyArgs(d, sc)
+	if err != nil {
+		r.HarnessError(err.Error())
+		return
+	}
+	out := d.call(d.stringify, args...)
+	var ores rj.StringifyResult
+	h := &hostModel{}
+	ores.Gap = rj.Stringify(rj.Nul, rj.Undef, sc.sp.model(h)).Gap
+	switch {
+	case out.thrown != "":
+		ores.Err = &rj.Throw{Class: out.thrown}
+	case out.value.IsUndefined():
+		ores.Undefined = true
+	case out.value.IsString():
+		ores.Text = fromOtto(out.value, 0).S
+	default:
+		ores.Err = &rj.Throw{Class: "returned a non-string"}
+	}
+	obs, _ := renderStringify(ores, nil)
+	exp := c.model()
+	r.Eval(true)
+	r.Outcome(obs)
+	if exp != obs {
+		r.Mismatch(engine.Mismatch{Key: r.ReplayKey, Input: c.input(), Expected: exp, Observed: obs, Aux: map[string]string{"op": "stringify-growing"}})
+	}
+}
+
+func runStringifyGrowing(r *engine.Run) {
+	var keys []string
+	for _, c := range growCases() {
+		keys = append(keys, c.name)
+	}
+	runInChildren(r, "stringify-growing-child", "stringify-growing", keys,
+		func(key string) string { c, _ := growCaseByName(key); return c.input() },
+		func(key string) string { c, _ := growCaseByName(key); return c.model() })
+	r.Bound("cases", strconv.Itoa(len(keys))+" (replacer returning a fresh array / object at every call, toJSON returning a fresh object carrying the same toJSON; x space none / 2), each in a child process with stack depth limit "+strconv.Itoa(cyclicStackLimit))
+}
+
+// childTimeout bounds one child: the cases take milliseconds; a child that is
+// still recursing after this long is as dead as one that overflowed its stack.
+const childTimeout = 30 * time.Second
+
+// runInChildren executes every case key in a child process of this binary
+// (worker C11 --family childFamily --key key) and files what the child reports;
+// a child that dies becomes a mismatch "process died".
+func runInChildren(r *engine.Run, childFamily, op string, keys []string, input, expected func(key string) string) {
 	self, err := os.Executable()
 	if err != nil {
 		r.HarnessError(err.Error())
 		return
 	}
-	tmp, err := os.MkdirTemp(filepath.Join(engine.VerifDir(), ".work"), "c11-cyclic-")
+	tmp, err := os.MkdirTemp(filepath.Join(engine.VerifDir(), ".work"), "c11-child-")
 	if err != nil {
-		tmp, err = os.MkdirTemp("", "c11-cyclic-")
-		if err != nil {
+		if tmp, err = os.MkdirTemp("", "c11-child-"); err != nil {
 			r.HarnessError(err.Error())
 			return
 		}
@@ -133,39 +277,37 @@ func runReviveCyclic(r *engine.Run) {
 	defer os.RemoveAll(tmp)
 	devnull, _ := os.Open(os.DevNull)
 	defer devnull.Close()
-	for i, key := range cyclicCases() {
+	for i, key := range keys {
 		if !r.MineKey(key) {
 			continue
 		}
-		text, m, _ := cyclicCase(key)
 		outFile := filepath.Join(tmp, fmt.Sprintf("case-%d.json", i))
-		cmd := exec.Command(self, "worker", "C11", "--tier", r.Tier, "--family", "revive-cyclic-child", "--key", key, "--out", outFile)
+		ctx, cancel := context.WithTimeout(context.Background(), childTimeout)
+		cmd := exec.CommandContext(ctx, self, "worker", "C11", "--tier", r.Tier, "--family", childFamily, "--key", key, "--out", outFile)
 		cmd.Env = append(os.Environ(), "GOTRACEBACK=none")
 		cmd.ExtraFiles = []*os.File{devnull} // fd 3: the announce pipe of a worker
 		var stderr strings.Builder
 		cmd.Stderr = &stderr
 		r.Begin(key)
 		runErr := cmd.Run()
+		timedOut := ctx.Err() != nil
+		cancel()
 		r.End()
 		r.Eval(true)
-		input := cyclicInput(text, m)
 		if runErr != nil {
 			first := strings.TrimSpace(stderr.String())
+			if timedOut {
+				first = "killed after " + childTimeout.String() + " without a result (unbounded recursion still running)"
+			}
 			if j := strings.IndexByte(first, '\n'); j >= 0 {
 				first = first[:j]
 			}
 			if len(first) > 200 {
 				first = first[:200]
 			}
-			exp := ""
-			forEachMemberOrder(text, func(v rj.Value) bool {
-				exp = cyclicModel(v, m)
-				return true
-			})
-			obs := "process died (" + runErr.Error() + "): " + first
 			r.Outcome("process died")
-			file(r, engine.Mismatch{Key: key, Input: input, Expected: exp, Observed: obs,
-				Aux: map[string]string{"op": "parse-cyclic-reviver", "stderr": first}})
+			file(r, engine.Mismatch{Key: key, Input: input(key), Expected: expected(key), Observed: "process died (" + runErr.Error() + "): " + first,
+				Aux: map[string]string{"op": op, "stderr": first}})
 			continue
 		}
 		b, err := os.ReadFile(outFile)
@@ -182,9 +324,9 @@ func runReviveCyclic(r *engine.Run) {
 			r.HarnessError("child: " + h)
 		}
 		if len(res.Violations) == 0 {
-			r.Outcome("agrees")
+			r.Outcome("agrees: " + expected(key))
 			if r.WantSample() {
-				r.Sample(input + " => agrees with the bounded-depth model")
+				r.Sample(input(key) + " => " + expected(key) + " (agrees with the bounded-depth model)")
 			}
 		}
 		for _, v := range res.Violations {
@@ -192,5 +334,4 @@ func runReviveCyclic(r *engine.Run) {
 			file(r, engine.Mismatch{Key: key, Input: v.Input, Expected: v.Expected, Observed: v.Observed, Aux: v.Aux})
 		}
 	}
-	r.Bound("cases", strconv.Itoa(len(cyclicCases()))+" (texts x {first, firstContainer} cycSibs), each in a child process with stack depth limit "+strconv.Itoa(cyclicStackLimit))
 }
